@@ -182,8 +182,9 @@ func (ct *ContractTable) loadContractFile(path string) error {
 		case "trustframe":
 			// trustframe <package path> ...: calls into these (external) packages that have no contract
 			// are ASSUMED to write no memory the verified code can see and to return unconstrained values
+			// scoped to the functions of the package whose contract file declares it
 			for _, f := range fields[1:] {
-				ct.TrustFrame[strings.Trim(f, "\"")] = true
+				ct.TrustFrame[defaultPkg+"|"+strings.Trim(f, "\"")] = true
 			}
 		case "const":
 			// const NAME = value
